@@ -70,19 +70,51 @@ Theorem C18b_provider_event_not_retry : forall e, provider_event e = true -> is_
 Proof. exact provider_event_not_retry. Qed.
 Print Assumptions C18b_provider_event_not_retry.
 
-(* [R] the hypothesis cannot be dropped.  A decided record (succeeded, transition to t2 decided and
-   true, t2 staged) of a task with retries left: a DUPLICATE completion report of the same execution
-   re-runs the retry decision, reopens the record (retrying), and the next attempt rewrites its
-   status (failed) and its decision (false) -- every operation is a provider event or a poll.
-   Replayed on the engine (same outcome); definition and operation list in proofs/FrozenProofs.v. *)
-Theorem C18b_decided_record_not_frozen_with_retries_left : exists r r',
+(* [F] D33 (the retry of a completed task is evaluated only when the report changed its status): the hypothesis on
+   the retries left is not needed.  For every evaluator, state and history of API calls in which nobody injects the
+   engine's internal retry event (op_static: that and OpPersist, the subject of C05, are the only exclusions), a
+   decided record stays frozen -- with or without a retry policy, whatever its tally *)
+Theorem C18b_decided_record_frozen_always : forall ev ops c i r,
+  nth_error (sequence (c_ws c)) i = Some r -> decided r -> forallb op_static ops = true ->
+  exists r', nth_error (sequence (c_ws (run_ops ev ops c))) i = Some r' /\ same_decided r r'.
+Proof. exact decided_record_frozen_always. Qed.
+Print Assumptions C18b_decided_record_frozen_always.
+
+(* [F] one call, general form: an event that addresses the record need only not be the internal retry event *)
+Theorem C18b_decided_record_frozen_step_always : forall ev op c c' res i r,
+  nth_error (sequence (c_ws c)) i = Some r -> decided r ->
+  op_safe_w i c op -> api_exec ev op c = (c', res) ->
+  exists r', nth_error (sequence (c_ws c')) i = Some r' /\ same_decided r r'.
+Proof. exact decided_record_frozen_step_w. Qed.
+Print Assumptions C18b_decided_record_frozen_step_always.
+Theorem C18b_op_safe_w_unfold : forall i c op,
+  op_safe_w i c op <->
+  match op with
+  | OpEvent t route evt =>
+      ws_task_idx (c_ws c) t route <> Some i \/ is_engine_command t = true \/
+      (c_init c = true /\ status_in (ev_status evt) STARTING_STATUSES = true /\
+       exists s, get_staged_task (c_ws c) t route = Some s /\ s_completed s = false) \/
+      is_retry_event evt = false
+  | OpPersist => c_init c = true
+  | _ => True
+  end.
+Proof. exact op_safe_w_spelled. Qed.
+Print Assumptions C18b_op_safe_w_unfold.
+
+(* The former refutation [R] of dropping the hypothesis ~ retry_open r is gone with the engine fix D33 (the retry
+   of a completed task is evaluated only when the report changed its status).  Before the fix: a decided record
+   (succeeded, transition to t2 decided and true, t2 staged) of a task with retries left was reopened by a DUPLICATE
+   completion report of the same execution (retrying), and the next attempt rewrote its status (failed) and its
+   decision (false).  Same definition and operation list now: the record keeps its status and its decision.
+   Definition and operation list in proofs/FrozenProofs.v. *)
+Theorem C18b_decided_record_kept_with_retries_left : exists r r',
   nth_error (sequence (c_ws (w_decided w_retry))) 0 = Some r /\ decided r /\ retry_open r /\
   forallb op_static (w_late :: w_ops3) = true /\
   nth_error (sequence (c_ws (run_ops ev_w (w_late :: w_ops3) (w_decided w_retry)))) 0 = Some r' /\
-  r_status r = Some S_SUCCEEDED /\ r_status r' = Some S_FAILED /\
-  r_next r = [(("t2", 0), true)] /\ r_next r' = [(("t2", 0), false)].
-Proof. exact decided_record_not_frozen_with_retries_left. Qed.
-Print Assumptions C18b_decided_record_not_frozen_with_retries_left.
+  r_status r = Some S_SUCCEEDED /\ r_status r' = Some S_SUCCEEDED /\
+  r_next r = [(("t2", 0), true)] /\ r_next r' = [(("t2", 0), true)].
+Proof. exact decided_record_kept_with_retries_left. Qed.
+Print Assumptions C18b_decided_record_kept_with_retries_left.
 
 (* ---- a retried attempt is reopened before any transition is decided ---- *)
 
@@ -116,15 +148,16 @@ Example C18b_w_decided_state :
   = ([(Some S_SUCCEEDED, [(("t2", 0), true)], Some (("t2", 0), 1), false)], S_RUNNING, ["t2"], 2).
 Proof. exact w_decided_state. Qed.
 
-Example C18b_w_late_report_reopens :
+(* D33: the duplicate report is absorbed (before the fix: retrying, t1 staged again; then failed, decision false) *)
+Example C18b_w_late_report_absorbed :
   w_obs (run_ops ev_w [w_late] (w_decided w_retry))
-  = ([(Some S_RETRYING, [(("t2", 0), true)], Some (("t2", 0), 1), false)], S_RUNNING, ["t2"; "t1"], 2).
-Proof. exact w_late_report_reopens. Qed.
+  = ([(Some S_SUCCEEDED, [(("t2", 0), true)], Some (("t2", 0), 1), false)], S_RUNNING, ["t2"], 2).
+Proof. exact w_late_report_absorbed. Qed.
 
-Example C18b_w_decision_rewritten :
+Example C18b_w_decision_kept :
   w_obs (run_ops ev_w (w_late :: w_ops3) (w_decided w_retry))
-  = ([(Some S_FAILED, [(("t2", 0), false)], Some (("t2", 0), 1), true)], S_FAILED, ["t2"], 2).
-Proof. exact w_decision_rewritten. Qed.
+  = ([(Some S_SUCCEEDED, [(("t2", 0), true)], Some (("t2", 0), 1), false)], S_RUNNING, ["t2"], 2).
+Proof. exact w_decision_kept. Qed.
 
 (* the same definition without a retry policy: the theorem's hypotheses hold and the duplicate
    reports leave the decided record alone *)
@@ -152,7 +185,8 @@ Proof. exact w_injected_retry_event_reopens. Qed.
 
 (* a rerun leaves the decided record's status and decisions, resets its terminal flag, appends a record *)
 Example C18b_w_rerun_resets_term_only :
-  w_obs (run_ops ev_w [OpRerun []] (run_ops ev_w (w_late :: w_ops3) (w_decided w_retry)))
-  = ([(Some S_FAILED, [(("t2", 0), false)], Some (("t2", 0), 1), false); (None, [], None, false)],
-     S_RESUMING, ["t2"; "t1"], 2).
+  w_obs (run_ops ev_w [OpRerun []] (run_ops ev_w w_ops4 (w_decided w_retry)))
+  = ([(Some S_SUCCEEDED, [(("t2", 0), true)], Some (("t2", 0), 1), false); (Some S_FAILED, [], None, false);
+      (None, [], None, false)],
+     S_RESUMING, ["t2"], 2).
 Proof. exact w_rerun_resets_term_only. Qed.
